@@ -249,13 +249,14 @@ def sweep_slots(quick):
 def sweep_pairlen(quick):
     """L/R pairs of equal length for every length around the transcoder's 2048-word block and the sector size, contiguous
     and fragmented"""
-    for n in (1, 2047, 2048, 2049, 4025, 4026, 4027, 4095, 4096, 4097, 6000, 8122, 12218, 12219):
+    for k, n in enumerate((1, 2047, 2048, 2049, 4025, 4026, 4027, 4095, 4096, 4097, 6000, 8122, 12218, 12219)):
+        rate = (22050, 32000, 44100, 48000, 8000)[k % 5]      # (the pair's own rate, both halves alike, must be the merged file's)
         for frag in (False, True):
             m = A.needed_sectors(140 + 2 * n)
             cl, cr = list(range(4, 4 + m)), list(range(4 + m, 4 + 2 * m))
             if frag:
                 cl, cr = (cl + cr)[0::2], (cl + cr)[1::2][::-1]
-            files = [{"name": "WIDE-L", "n": n, "chain": cl, "seq": 1}, {"name": "WIDE-R", "n": n, "chain": cr, "seq": 2},
+            files = [{"name": "WIDE-L", "n": n, "chain": cl, "seq": 1, "rate": rate}, {"name": "WIDE-R", "n": n, "chain": cr, "seq": 2, "rate": rate},
                      {"name": "MONO", "n": 33, "chain": [4 + 2 * m], "seq": 3}]
             yield {"sweep": "pairlen", "spec": {"parts": [{"vols": [{"name": "VOL", "dir": [3], "files": files, "pairs": [[0, 1, "WIDE"]]}]}]}}
 
@@ -335,7 +336,7 @@ class Check(CheckBase):
             "single deviations; (names) 13 families (covering all 41 characters) (incl. two / three distinct samples with one name) of names using the non-letter characters of the AKAI set (. # + - digits "
             "blanks, 12 characters) x 5 volume names, and 8 sets of equal / nearly equal sibling VOLUME names holding same-named samples with different audio (one and two partitions), judged by content only; (slots) every set of <=3 (thorough 4) occupied "
             "volume-table slots out of {0,1,2,3,50,98,99} in both storage orders; (bigdir) volumes of 63..510 one-sector samples "
-            "(around powers of two and the 340-entry capacity of a one-sector file table); (pairlen) equal-length L/R pairs of 1..12219 words (around the 2048-word block and the sector "
+            "(around powers of two and the 340-entry capacity of a one-sector file table); (pairlen) equal-length L/R pairs of 1..12219 words at 8000 / 22050 / 32000 / 44100 / 48000 Hz (around the 2048-word block and the sector "
             "size), contiguous and interleaved chains; the header, structure, names and slots "
             "cases export twice from one image object and the second export must equal the first. non-trivial = non ascending-contiguous multi-sector chain, or file filling its last "
             "sector exactly, or >1 partition/volume")
